@@ -5,6 +5,7 @@ import (
 	"encoding/json"
 	"iter"
 	"maps"
+	"math"
 	"slices"
 )
 
@@ -149,6 +150,17 @@ func (s Set) MarshalJSON() ([]byte, error) {
 	w.WriteByte('[')
 	orderedKeys := slices.Collect(maps.Keys(s.s))
 	slices.Sort(orderedKeys)
+	// A probe chain that wraps from slot 2^64-1 to slot 0 must be written starting at its head:
+	// decoding re-inserts the members in the written order, and starting in the middle of the
+	// chain would swap colliding members, so that every round trip flips the encoding.
+	if n := len(orderedKeys); n > 1 && orderedKeys[0] == 0 && orderedKeys[n-1] == math.MaxUint64 {
+		for i := 1; i < n; i++ {
+			if orderedKeys[i]-1 != orderedKeys[i-1] {
+				orderedKeys = slices.Concat(orderedKeys[i:], orderedKeys[:i])
+				break
+			}
+		}
+	}
 	for i, k := range orderedKeys {
 		if i != 0 {
 			w.WriteByte(',')
